@@ -377,9 +377,15 @@ def check(run: Run) -> None:
             regs = re.findall(r"ops\s*\.\s*evaluate_impl\s*=\s*&\s*(\w+)", t.read(rel))
             for name in sorted(set(regs)):
                 fa2 = R.fn(run, rel, name)
+                # a statement that mentions none of the function's parameters (a trace line, an unrelated local) cannot evaluate a
+                # child or run user code: such statements may precede the gate / the forwarding return
+                def param_free(fa_, st_):
+                    ps = {nm for _, nm in fa_.params if nm}
+                    return not any(isinstance(x, C.Id) and x.name.split("::")[0] in ps for x in st_.walk()) and \
+                        not any(isinstance(x, (C.Return, C.Throw)) for x in st_.walk())
                 # follow a pure forwarder `return f(view, evaluation_time);`
                 for _ in range(2):
-                    st0 = fa2.body.stmts
+                    st0 = [x for x in fa2.body.stmts if not param_free(fa2, x)]
                     if len(st0) == 1 and isinstance(st0[0], C.Return) and isinstance(st0[0].e, C.Call):
                         tgt = R.callee_name(st0[0].e)
                         cands = t.funcs(rel, tgt)
@@ -388,7 +394,8 @@ def check(run: Run) -> None:
                             continue
                     break
                 cn2 = R.aliases_of(fa2)
-                first = fa2.body.stmts[0] if fa2.body.stmts else None
+                eff = [x for x in fa2.body.stmts if not param_free(fa2, x)]
+                first = eff[0] if eff else None
                 okg = isinstance(first, C.If) and cn2(first.cond) == "!view.started()" and first.els is None and \
                     any(isinstance(x, C.Return) for x in first.then.walk())
                 n += 1
